@@ -54,7 +54,11 @@ SetQ(b, s, q) == IF s = "B" THEN [b EXCEPT !.qb = q] ELSE [b EXCEPT !.qa = q]
 IsMkt(o) == \/ o.side = "B" /\ o.price = MaxPrice
             \/ o.side = "A" /\ o.price = 0
 
-OnGrid(b, p) == p % b.tick = 0
+\* MaxPrice stands for 2^32 - 1, whose residue is computed without leaving TLC's 32-bit
+\* integers: 2^32 - 1 = 65536 * 65536 - 1  (tick sizes below 2^15)
+OnGrid(b, p) ==
+  IF p = MaxPrice THEN (((65536 % b.tick) * (65536 % b.tick)) + b.tick - 1) % b.tick = 0
+  ELSE p % b.tick = 0
 
 \* p1 strictly better than p2 for a resting order on side s
 Better(s, p1, p2) == IF s = "B" THEN p1 > p2 ELSE p1 < p2
